@@ -130,6 +130,22 @@ def owned_locals(fn):
     return owned
 
 
+def callback_owned_writes(fn):
+    """Attribute stores, in a production callback, on a local that aliases an object held by the
+    receiver (`m = self.media; m.mediaText = ...`): the callback edits live state while later tokens
+    can still be rejected."""
+    if not isinstance(fn, ast.FunctionDef):
+        return set()
+    owned = owned_locals(fn)
+    out = set()
+    for x in ast.walk(fn):
+        if isinstance(x, (ast.Assign, ast.AugAssign)):
+            for t in (x.targets if isinstance(x, ast.Assign) else [x.target]):
+                if isinstance(t, ast.Attribute) and isinstance(t.value, ast.Name) and t.value.id in owned and not t.attr.startswith('__'):
+                    out.add(f'<{owned[t.value.id]}>.{t.attr}')
+    return out
+
+
 # (function, raising site) pairs that were examined by hand and cannot raise
 # where they stand - one reason each.  Keys use the site description produced by
 # the effects engine (callee / message), not local variable names.
@@ -270,12 +286,15 @@ def analyse(eff, key):
                 continue  # every path is cut by a boolean flag the write path sets
             out.append((g.describe(wid), sorted(attrs), g.describe(rid_), eff.site_desc(rel, g.nodes[rid_].stmt) if g.nodes[rid_].kind != 'raise' else ['raise']))
     # a single call that both writes and may raise through *different* callbacks
-    for wid, attrs in W.items():
-        n = g.nodes[wid]
+    for n in g.nodes:
+        if n.stmt is None or n.kind == 'def':
+            continue
+        wid, attrs = n.id, W.get(n.id, set())
         for c in cfgmod.calls_at(n):
             if call_name(c) == 'self._parse' and wid in R:
                 cbs = eff._parse_callbacks().get(id(c), [])
-                writers = [cb for cb in cbs if id(cb.target) in eff.fn_key and eff.same_receiver(key, eff.fn_key[id(cb.target)]) and eff.writes.get(eff.fn_key[id(cb.target)])]
+                writers = [cb for cb in cbs if id(cb.target) in eff.fn_key and eff.same_receiver(key, eff.fn_key[id(cb.target)]) and (eff.writes.get(eff.fn_key[id(cb.target)]) or callback_owned_writes(cb.target))]
+                attrs = set(attrs) | {a for cb in writers for a in callback_owned_writes(cb.target)}
                 raisers = [cb for cb in cbs if id(cb.target) in eff.fn_key and eff.may_raise(eff.fn_key[id(cb.target)])]
                 if writers and raisers:
                     esc = g.reachable([wid], labels=lambda a, b, lab, r=wid: (a != r) or lab in ('exc', 'raise'))
